@@ -5,6 +5,7 @@ import json
 
 from . import common, pure
 from . import cache_common as cc
+from . import c04s
 from .c05 import TRUSTED
 
 
@@ -144,11 +145,16 @@ def run(chk):
                        "the extracted Cache.v (every order of same-instant events of one key is a candidate history); compared: identity class of every returned "
                        "Future, job created <=> loader invocation, pair + resolution instant of every Get. Plus: shard index of typed keys vs c_shard_index; "
                        "real-time (no faketime) stress of 8-24 concurrent Loads checked by the monitors. non-trivial = some Load shares a Future with an earlier Load")
-    chk.run_proof_gate(cc.PROOFS)
+    chk.run_proof_gate(cc.PROOFS + c04s.PROOFS)
+    all_corpus = pure.corpus_cases("C04")
+    try:
+        c04s.run(chk, [l for l in all_corpus if l.startswith("c04s ")])
+    except Exception as ex:
+        chk.infra_errors.append("call-steps stream failed: %r" % (ex,))
     binary = cc.build_ft(chk)
     if binary:
         try:
-            corpus = [cc.parse_line(l) for l in pure.corpus_cases("C04")]
+            corpus = [cc.parse_line(l) for l in all_corpus if l.startswith("ftc")]
             cc.check_batch(chk, binary, "corpus", corpus, cc.monitor_c04, nontrivial=nontrivial)
             sample_lines = []
             for name, scripts in gen(chk, binary, chk.tier):
